@@ -47,6 +47,8 @@ def impl_outcome(r):
         return ('unstable', f'first build: {v[1]} ... second build of the same parsed model and configuration: {v[2]}')
     if name.startswith('parse:'):
         return ('parse', name)
+    if name in LIBRARY_ERRORS and len(v) > 1 and isinstance(v[1], str) and not v[1].strip():
+        return ('internal', f'{name} raised without a message')      # "... one of the library's own error types with a message"
     return ('lib', name) if name in LIBRARY_ERRORS else ('internal', name)
 
 
